@@ -478,7 +478,7 @@ impl Document {
 
         let mut initialism_start = None;
 
-        loop {
+        while cursor < self.tokens.len() {
             let a = &self.tokens[cursor - 1];
             let b = &self.tokens[cursor];
 
@@ -504,10 +504,12 @@ impl Document {
             }
 
             cursor += 1;
+        }
 
-            if cursor >= self.tokens.len() - 1 {
-                break;
-            }
+        // An initialism may run up to the very end of the document.
+        if let (Some(start), Some(last)) = (initialism_start, to_remove.back()) {
+            let end = self.tokens[*last].span.end;
+            self.tokens[start].span.end = end;
         }
 
         self.tokens.remove_indices(to_remove);
